@@ -10,7 +10,8 @@ from ..cfg import build_cfg, calls_in, node_calls
 from ..core import Ctx, property_info, rule
 from ..jinja import outputs, template_files
 from ..model import AnalysisError, FuncInfo, norm_text, walk_no_nested
-from ..q import A, asrc, call_name_of, control_deps, entry_conditions, flows, leaves_at, names_from_calls, forms, return_values, is_self_attr, kwarg, stores, unparse
+from ..q import A, func_text, str_template, callable_leaves, callable_body, sort_calls, value_texts, reach_table, reach_env, node_containing, asrc, call_name_of, control_deps, entry_conditions, flows, leaves_at, names_from_calls, forms, return_values, is_self_attr, kwarg, stores, unparse
+from ._schedule import designators, processor_table
 
 SCOPE = ("xsdata.codegen", "xsdata.formats.dataclass.generator", "xsdata.formats.dataclass.filters", "xsdata.formats.mixins", "xsdata.models.config", "xsdata.models.xsd",
          "xsdata.models.mixins", "xsdata.models.wsdl", "xsdata.models.dtd", "xsdata.utils.text", "xsdata.utils.package", "xsdata.utils.graphs", "xsdata.utils.collections")
@@ -174,7 +175,8 @@ def duplicate_handling_keyed_like_naming(ctx: Ctx) -> None:
     rd = ctx.repo.func("xsdata.codegen.utils:ClassUtils.rename_duplicate_attributes")
     gb = [c for c in calls_in(rd.node) if unparse(c.func) == "collections.group_by"]
     key = kwarg(gb[0], "key") if gb else None
-    ok = isinstance(key, ast.Lambda) and A(unparse(key.body)) == A(f"{key.args.args[0].arg}.slug or DEFAULT_ATTR_NAME")
+    kl = callable_leaves(ctx.repo, rd, key)
+    ok = kl is not None and {t for t, _ in kl} == {"_.slug", "DEFAULT_ATTR_NAME"}
     ctx.ob("duplicate attrs are grouped by slug with the empty slug mapped to DEFAULT_ATTR_NAME (the name safe_name gives an empty name)", ok, at=rd, node=gb[0] if gb else None, construct="attr grouping key",
            msg="an attr with an empty slug (e.g. enumeration value \"\") is later named `value` but is not grouped with a sibling really called `value`: two members get the same name")
     cm = ctx.repo.module("xsdata.utils.constants")
@@ -212,18 +214,31 @@ def duplicate_handling_keyed_like_naming(ctx: Ctx) -> None:
     set_q = [g.node_of(st) for st, tgt, v in stores(ur.node) if unparse(tgt).endswith(".qname")]
     set_d = [g.node_of(st) for st, tgt, v in stores(ur.node) if unparse(tgt).endswith(".default")]
     ok = len(set_q) == 1 and len(set_d) == 1 and g.must_pass(g.entry, set_d[0].id, [set_q[0].id])
-    dv = [v for st, tgt, v in stores(ur.node) if unparse(tgt).endswith(".default")]
-    ok = ok and bool(dv) and ".qname" in unparse(dv[0])
+    dv = [(st, v) for st, tgt, v in stores(ur.node) if unparse(tgt).endswith(".default") and v is not None]
+
+    def _mentions_new_qname(st, v) -> bool:
+        # the new default is a string built from the (already rewritten) type qname: some hole of the template flows from `<type>.qname`
+        for leaf in leaves_at(ur, st, v):
+            t = str_template(leaf)
+            for kind, hole in t or []:
+                if kind == "hole" and any(x.endswith(".qname") for x in value_texts(ur, st, hole)):
+                    return True
+        return False
+
+    ok = ok and bool(dv) and _mentions_new_qname(*dv[0])
     ctx.ob("update_references rewrites the type's qname first and then the '@enum@<qname>::member' default with the NEW qname", ok, at=ur, construct="enum default follows rename",
            msg="the enum default keeps the old qname: Filters.field_default_enum finds no matching type and raises StopIteration")
-    cont = ctx.repo.func("xsdata.codegen.container:ClassContainer.designate_classes")
-    wanted_ = ("MergeDuplicateClasses", "RenameDuplicateClasses", "ValidateReferences", "DesignateClassPackages")
-    names = [x.id for x in sorted((x for x in walk_no_nested(cont.node) if isinstance(x, ast.Name) and isinstance(x.ctx, ast.Load) and x.id in wanted_), key=lambda x: (x.lineno, x.col_offset))]
-    ctx.ob("designators run MergeDuplicateClasses, RenameDuplicateClasses, ValidateReferences, DesignateClassPackages in this order", names == ["MergeDuplicateClasses", "RenameDuplicateClasses", "ValidateReferences", "DesignateClassPackages"], at=cont,
-           construct="designator order", msg=f"order {names}")
-    init = ctx.repo.func("xsdata.codegen.container:ClassContainer.__init__")
-    src = unparse(init.node)
-    ctx.ob("RenameDuplicateAttributes runs in SANITIZE, after every FLATTEN handler that can add attrs", "Steps.SANITIZE: [ResetAttributeSequences(), RenameDuplicateAttributes()]" in src, at=init, construct="rename attrs schedule", msg="schedule changed")
+    cont, names = designators(ctx)
+    if names is not None:
+        ctx.ob("designators run MergeDuplicateClasses, RenameDuplicateClasses, ValidateReferences, DesignateClassPackages in this order", names == ["MergeDuplicateClasses", "RenameDuplicateClasses", "ValidateReferences", "DesignateClassPackages"], at=cont,
+               construct="designator order", msg=f"order {names}")
+    init, table = processor_table(ctx)
+    if table is not None:
+        pos = {n: (k_, i_) for i_, (k_, n) in enumerate(table)}
+        ra = pos.get("RenameDuplicateAttributes")
+        adders = [n for k_, n in table if k_ in ("Steps.UNGROUP", "Steps.FLATTEN")]
+        ctx.ob("RenameDuplicateAttributes runs in SANITIZE, after every FLATTEN handler that can add attrs", ra is not None and ra[0] == "Steps.SANITIZE" and all(pos[a][1] < ra[1] for a in adders), at=init,
+               construct="rename attrs schedule", msg=f"schedule changed: RenameDuplicateAttributes at {ra}")
 
 
 def _is_slug(fi: FuncInfo, where, e: ast.expr) -> bool:
@@ -273,8 +288,9 @@ def free_name_searches_compare_slugs(ctx: Ctx) -> None:
     up = ctx.repo.func("xsdata.models.config:GeneratorOutput.update")
     g = build_cfg(up.node)
     upd = [n for n in g.stmts() if any(unparse(c.func) == "objects.update" for c in node_calls(n))]
-    val = [n for n in g.stmts() if any(unparse(c.func) == "self.format.validate" for c in node_calls(n))]
-    ok = len(upd) == 1 and len(val) == 1 and g.must_pass(upd[0].id, g.exit, [val[0].id])
+    val = [n for n in g.stmts() if any(func_text(up, c) == "self.format.validate" or (isinstance(c.func, ast.Attribute) and c.func.attr == "validate" and "self.format" in value_texts(up, n, c.func.value))
+                                       for c in node_calls(n))]
+    ok = len(upd) == 1 and bool(val) and g.must_pass(upd[0].id, g.exit, [v.id for v in val], normal_only=True)
     ctx.ob("GeneratorOutput.update re-validates the output format after applying late options (order implies eq)", ok, at=up, construct="late options validated",
            msg="options applied through update() (the CLI route) skip OutputFormat.validate: @dataclass(eq=False, order=True) is generated and the module fails to import")
     of = ctx.repo.cls("xsdata.models.config:OutputFormat")
